@@ -83,7 +83,7 @@ func (Engine) Generate(prop string, r *kit.Rand, tier string) *kit.Scenario[Conf
 	switch {
 	case r.Chance(0.3):
 		sc.Config.Harness = "dummy"
-	case r.Chance(0.01):
+	case r.Chance(0.03):
 		sc.Config.Harness = "real"
 	}
 	var pool []string
@@ -97,6 +97,9 @@ func (Engine) Generate(prop string, r *kit.Rand, tier string) *kit.Scenario[Conf
 			o := Op{Op: "express", Name: genName(r, pool), CBP: r.Chance(0.4)}
 			pool = append(pool, o.Name)
 			o.LifeMs = kit.Pick(r, []int{0, 10, 50, 100, 100, 500, 1000})
+			if r.Chance(0.3) {
+				o.LifeMs = r.Range(11, 3000) // lifetimes that are no round number of any timer granularity
+			}
 			if r.Chance(0.12) {
 				o.Digest = r.Range(1, 2)
 			}
